@@ -55,3 +55,66 @@ Proof. vm_compute; reflexivity. Qed.
 (** the monitor rejects the restart submitted after the request *)
 Example C07_monitor_rejects : prop_ok 7 ex_c ex_g ex_ps_cancel ex_bad_obs_cancel = false.
 Proof. vm_compute; reflexivity. Qed.
+
+(* ======================================================================== *)
+(** * Liveness half: after a cancel request the study ends CANCELLED once the jobs drain
+    (Exec/ExecDrain.v on top of the termination theorem C05_terminates, Exec/ExecLive.v).
+    Vocabulary as in Props/C05.v: [reach_st] = states the monitor loop can be in;
+    [state_at]/[status_at] = the unstopped loop on an infinite input stream;
+    [running_upto n] = polls 0..n-1 all returned RUNNING (the real loop gets to poll n);
+    [delivers_terminal] / [noisy] = a terminal report reaches an in-progress job /
+    a HWFAILURE report or a TIMEDOUT report for an unlimited-restart step is delivered. *)
+From MWF Require Import Exec.ExecGraph Exec.ExecPoll Exec.ExecVerdict Exec.ExecLive Exec.ExecDrain.
+
+(** the flag set by a cancel request is never reset *)
+Theorem C07_canceled_monotone : forall c g s p, canceled (fst (poll c g s p)) = cancel_req p || canceled s.
+Proof. exact poll_canceled. Qed.
+Print Assumptions C07_canceled_monotone.
+
+(** from every reachable state: if a cancel request arrives with the next poll (or was processed
+    before) and the input stream is -- for as long as the loop runs -- valid, free of query errors
+    and fair (whenever something is in flight, some later poll delivers a terminal report to an
+    in-progress job), and eventually quiet, then the loop stops, and the poll at which it stops
+    returns CANCELLED (not merely "not RUNNING") *)
+Theorem C07_drains : forall c g s (ps : nat -> pin), WF g -> reach_st c g s ->
+  cancel_req (ps 0) = true \/ canceled s = true ->
+  (forall n, running_upto c g s ps n -> valid_pin (state_at c g s ps n) (ps n) = true) ->
+  (forall n, running_upto c g s ps n -> aborts c (ps n) = false) ->
+  (forall n, running_upto c g s ps n -> inprog (state_at c g s ps n) <> [] ->
+             exists m, n <= m /\
+               (running_upto c g s ps m -> delivers_terminal c (state_at c g s ps m) (ps m) = true)) ->
+  (exists N, forall m, N <= m -> noisy c g (ps m) = false) ->
+  exists n, running_upto c g s ps n /\ status_at c g s ps n = SCANCELLED.
+Proof. exact drains. Qed.
+Print Assumptions C07_drains.
+
+(** quantitative form: while the loop runs on quiet input after the request, the productive polls
+    (nothing in flight, or a terminal report delivered) number at most the potential Phi of the
+    state in which the request arrived (3 per unresolved instance + finite restart budgets at most) *)
+Theorem C07_drain_bound : forall c g s (ps : nat -> pin) n, WF g -> reach_st c g s ->
+  completion_gen g s = SRUNNING ->
+  (forall k, running_upto c g s ps k -> valid_pin (state_at c g s ps k) (ps k) = true) ->
+  (forall k, running_upto c g s ps k -> aborts c (ps k) = false) ->
+  (forall m, m < n -> noisy c g (ps m) = false /\ status_at c g s ps m = SRUNNING) ->
+  count_productive c g s ps n + Phi g (state_at c g s ps n) <= Phi g s.
+Proof. exact productive_bound_reachable. Qed.
+Print Assumptions C07_drain_bound.
+
+(** Non-vacuity: two independent jobs in flight ([dr_s], reachable), a cancel request, then job 0
+    reports FINISHED and job 1 TIMEDOUT (restart script and budget left: not restarted):
+    RUNNING, RUNNING, CANCELLED; in-progress sets [0;1], [0;1], [1], [] *)
+Example C07_drain_example :
+  inprog dr_s = [0; 1] /\
+  map (status_at dr_c dr_g dr_s dr_ps) (seq 0 3) = [SRUNNING; SRUNNING; SCANCELLED] /\
+  map (fun n => inprog (state_at dr_c dr_g dr_s dr_ps n)) (seq 0 4) = [[0; 1]; [0; 1]; [1]; []] /\
+  map (fun n => Phi dr_g (state_at dr_c dr_g dr_s dr_ps n)) (seq 0 4) = [4; 4; 3; 0].
+Proof. exact dr_statuses. Qed.
+(** every hypothesis of C07_drains holds of that history, and its conclusion follows *)
+Example C07_drain_hyps :
+  WF dr_g /\ reach_st dr_c dr_g dr_s /\ cancel_req (dr_ps 0) = true /\
+  valid_stream dr_c dr_g dr_s dr_ps /\ no_error dr_c dr_g dr_s dr_ps /\ fair dr_c dr_g dr_s dr_ps /\
+  quiet dr_c dr_g dr_ps.
+Proof. exact (conj dr_wf (conj dr_reach (conj eq_refl (conj dr_valid (conj dr_no_error (conj dr_fair dr_quiet)))))). Qed.
+Example C07_drain_applied :
+  exists n, running_upto dr_c dr_g dr_s dr_ps n /\ status_at dr_c dr_g dr_s dr_ps n = SCANCELLED.
+Proof. exact dr_drains. Qed.
